@@ -28,7 +28,7 @@ def run(ctx):
         raise core.ToolFailure("design-level invariant %s of CrashReason.tla is violated in the model" % cr.violated)
     rep2 = ctx.read_harness_report(ctx.harness("replay_crashreason", [cr.out_path], out_name="replay_crashreason.out", timeout=3000))
     for need in ("os:windows", "os:linux", "os:android", "os:mac", "os:ios", "os:other", "shape:av_kind", "shape:inpage_kind", "shape:fastfail", "shape:sig_kind",
-                 "shape:sig_sicode", "shape:sig_hex", "shape:mac_kind", "shape:mac_general", "shape:unknown", "shape:win_unknown"):
+                 "shape:sig_sicode", "shape:sig_hex", "shape:mac_kind", "shape:mac_general", "shape:unknown", "shape:win_unknown", "os-strings"):
         if rep2["classes"].get(need, 0) == 0:
             raise core.ToolFailure("vacuous replay: CrashReason class %s never exercised" % need)
     cov = {
